@@ -20,6 +20,8 @@ def step (st : St) (line : String) : St × String :=
   | "get" :: rest => (st, handleGet st.spec st.db rest)
   | "eof" :: rest => (st, handleEof st.spec st.db rest)
   | "spf" :: rest => (st, handleSpf st.db rest)
+  | "bof" :: rest => (st, handleBof st.spec st.db rest)
+  | "nframes" :: _ => (st, handleNframes st.db)
   | [] => (st, "-")
   | w :: _ => if w.startsWith "#" then (st, "-") else (st, "-")
 
